@@ -55,6 +55,17 @@ CHECKS = {
         "Trusts vf/oracle/rt.py; Tuple[T, ...] / Generator are outside the statement's domain.",
         "6 C08",
     ),
+    "C09": (
+        "fault_enumeration",
+        "runtime monitoring: reference store model over recorded histories + offline all-or-none checker over crash/fault points (SQLite progress handler, SIGKILL, strace syscall injection) and concurrent writer/reader processes",
+        "Histories (exhaustive add-sequences up to length 3 over colliding names x every query; random and bulk histories) are judged "
+        "against a Python-set model; every SQLite VM step of a batch insert is an abort point, sampled/all VM steps are SIGKILL "
+        "points, every pwrite64/fdatasync/unlink occurrence is a SIGKILL/EIO/ENOSPC point; after each the file is reopened and read "
+        "through an independent connection: every batch all-or-none, acknowledged batches present, integrity_check ok; concurrent "
+        "readers must never see a partial batch; commit orders are recorded.",
+        "Crash = process kill / syscall error, not power loss; SQLite itself is trusted to implement rollback-journal recovery.",
+        "6 C09",
+    ),
 }
 
 PENDING = {}
